@@ -683,6 +683,11 @@ def cases_C03(ctx):
             klass = "%s:%s:%s:%s" % (e["key"], r["modes"][0], r["modes"][1], r["modes"][2] if tn == "msm" else "-")
             cs.append(case("msg %s %s" % (tok, hx(r["payload"])), klass,
                            ("attrs_expected", {"expected": exp, "ident": e["key"]}), ex))
+            # spec side: the Lean layout walk fed with the raw values packs to the same bytes and
+            # assigns the attributes the real parser extracts from them
+            raws = [o.bits for o in r["occs"] if o.ty not in ("prn", "cprn", "csig")]
+            cs.append(case("lay %s %s %s" % (tok, hx(r["payload"]), ",".join(map(str, raws)) or "-"), klass + ":lay",
+                           ("attrs_expected", {"expected": exp, "ident": e["key"]}), ex))
             # trailing bytes change nothing
             if rep % 3 == 0:
                 tr = bytes(rng.getrandbits(8) for _ in range(rng.randint(1, 9)))
